@@ -1,5 +1,6 @@
 //! Which families exist and which of them, in what numbers, make up each property's check.
 use crate::core::*;
+use crate::nsim;
 use crate::rsim;
 use crate::wsim;
 
@@ -21,6 +22,7 @@ pub fn families() -> Vec<&'static dyn Family> {
         &rsim::enumfail::RR_FAIL_ENUM,
         &wsim::clean::WIRE_CLEAN,
         &wsim::hostile::WIRE_HOSTILE,
+        &nsim::smoke::SMOKE,
     ]
 }
 
@@ -148,6 +150,15 @@ pub fn plan(property: &str) -> Option<CheckPlan> {
             real: vec!["MessageCodec + FramedRead", "decode_message_batch", "StringCodec / BytesCodec / BincodeCodec::decode", "gzip, zlib, zstd, lz4, brotli decompressors of selium-std", "the subscriber's decompress -> unbatch -> decode order (re-stated in the harness; the real Subscriber runs in the N-engine)"],
             stubbed: vec!["byte transport (scripted SimPipe)", "allocator (counting wrapper around the system allocator)"],
             items: vec![PlanItem { family: &wsim::hostile::WIRE_HOSTILE, quick: 300_000, thorough: 10_000_000 }],
+        }),
+        "SMOKE" => Some(CheckPlan {
+            property: "SMOKE",
+            level: "exploration",
+            rule: "N-engine smoke / determinism gate (not a property check)",
+            assumptions: vec![],
+            real: vec![],
+            stubbed: vec![],
+            items: vec![PlanItem { family: &nsim::smoke::SMOKE, quick: 400, thorough: 4000 }],
         }),
         _ => None,
     }
